@@ -211,6 +211,12 @@ func runC04(c *core.Ctx, ck *Check) {
 			}
 			text := "vers:" + j.scheme + "/" + strings.Join(parts, "|")
 			shapeKey := strings.Join(shape, "")
+			if r.IntN(4) == 0 {
+				// a rejected sibling first (the same constraints plus one the ecosystem rejects): a failed evaluation must
+				// leave nothing behind that the next evaluation can see
+				eco.SafeVersContains(text+"|"+shape[k-1]+p.Strs[chain[pos[k-1]]]+[]string{"-", "..", "@@"}[r.IntN(3)], p.Strs[r.IntN(len(p.Strs))])
+				w.Count("rejected_sibling_pretouches", 1)
+			}
 			if r.IntN(2) == 0 {
 				// the same constraint text is first seen under another scheme (state kept between calls, e.g. a
 				// cache keyed on the text alone, must not influence this scheme's answer); sorted order of THIS
